@@ -5,10 +5,15 @@
    every ETD tableau.  Also proved (Nonlin/MeanFree.v, band symmetry m -> -m of the dealiased convolution sums, 2K < N): the mean-mode coefficient of the
    NON-conservative single-channel convection and of the 1D default convection vanishes for every state; the 2D vorticity convection has zero
    mean for every state; the Leray-projected 3D rotational form has zero mean on divergence-free states (the premise is necessary).
-   NOT proved here (checked on the real code by the witness oracle, see DESIGN.md): energy / enstrophy neutrality of the convective terms. *)
+   Work (Nonlin/Energy.v): with the pairing <a, b> = sum_{k in band} a(-k) b(k) (for spectra of real fields a(-k) = conj a(k), so this is
+   N^D times the L^2 inner product) and the dealiased products with 3K < N, the single-channel Burgers-type convection (both forms) does no
+   work on its own state, and the 2D vorticity convection does no work against the vorticity (enstrophy) nor against the stream function
+   (energy) - for every state.  Proof: triple sums over a + m + c = 0 in the band are symmetric under permuting the slots (reflection of the
+   band) and a derivative symbol is additive, phi(a) + phi(m) + phi(c) = 0.
+   NOT proved here (checked on the real code by the witness oracle): energy neutrality of the 3D rotational form (u . (u x curl u) = 0). *)
 From Coq Require Import ZArith QArith List Bool Lia.
 From EXV Require Import Base.Scalar Base.FieldLemmas Spectral.Symbols Layout.Freq DFT.DFT1 Nonlin.Conv Nonlin.Terms ETDRK.Phi Gen.ETDRK
-  Steppers.Conservation Nonlin.MeanFree.
+  Steppers.Conservation Nonlin.MeanFree Nonlin.Energy.
 Import ListNotations.
 Local Open Scope fld_scope.
 Ltac splits := repeat match goal with |- _ /\ _ => split end.
@@ -74,6 +79,22 @@ Theorem C09_rotational_convection_zero_mean : forall (F : FieldT) (N Kc : Z) (ii
   forall i, (i < 3)%nat -> nth i (projected_conv F (prod2 F 3 N Kc) ii s 3 [u0; u1; u2]) (fzero F) (zeros 3) = 0.
 Proof. intros. apply projected_conv_dc; assumption. Qed.
 Print Assumptions C09_rotational_convection_zero_mean.
+
+(* Burgers-type convection does no work on its own (band-limited) state: conservative and non-conservative single-channel forms, any D *)
+Theorem C09_burgers_type_convection_does_no_work : forall (F : FieldT) (D : nat) (N Kc : Z) (ii s b : F) (u : field F),
+  (0 < N)%Z -> (0 <= Kc)%Z -> (3 * Kc < N)%Z ->
+  pairing F D Kc (msk F Kc u) (conv_sc_cons F (prod2 F D N Kc) ii s D b u) = 0
+  /\ pairing F D Kc (msk F Kc u) (conv_sc_noncons F (prod2 F D N Kc) ii s D b u) = 0.
+Proof. intros. split; [apply conv_sc_cons_no_work | apply conv_sc_noncons_no_work]; assumption. Qed.
+Print Assumptions C09_burgers_type_convection_does_no_work.
+
+(* 2D vorticity convection: no enstrophy work (<w, N(w)> = 0) and no energy work (<psi, N(w)> = 0, psi the stream function used by the term) *)
+Theorem C09_vorticity_convection_does_no_work : forall (F : FieldT) (D : nat) (N Kc : Z) (ii s b : F) (w : field F),
+  (0 < N)%Z -> (0 <= Kc)%Z -> (3 * Kc < N)%Z ->
+  pairing F D Kc (msk F Kc w) (vorticity_conv F (prod2 F D N Kc) ii s D b w) = 0
+  /\ pairing F D Kc (fun k => inv_lap_one F ii s D k * msk F Kc w k) (vorticity_conv F (prod2 F D N Kc) ii s D b w) = 0.
+Proof. intros. apply (vorticity_conv_no_work F D N Kc); assumption. Qed.
+Print Assumptions C09_vorticity_convection_does_no_work.
 
 (* every order leaves a mode unchanged where the propagator is 1 and the nonlinear term vanishes for every input *)
 Theorem C09_mean_preserved : forall (F : FieldT) (I : Type) (k0 : I) (E Eh c1 c2 c3 c4 c5 c6 : I -> F) (N : (I -> F) -> (I -> F)),
